@@ -245,6 +245,11 @@ func c18GenSchema(rng *rand.Rand, all bool) c18Schema {
 		}
 		// every collection has a distinguishing string and an int
 		s.Fields[col] = append(s.Fields[col], c13Field{Name: "name", Kind: c13String}, c13Field{Name: "num", Kind: c13Int})
+		// fields with a schema default: a document may leave them out (the default applies), set them,
+		// or set them to null explicitly (null is then the stored value and must survive the round trip)
+		if all || rng.IntN(2) == 0 {
+			s.Fields[col] = append(s.Fields[col], c13Field{Name: "dint", Kind: c13Int, Default: "int: 7"}, c13Field{Name: "dstr", Kind: c13String, Default: `string: "dv"`})
+		}
 	}
 	cand := []c18Rel{
 		{Col: "B", Name: "owner", Target: "A", Topo: "one_many", Back: "items"},
@@ -292,6 +297,18 @@ func c18GenDB(rng *rand.Rand, all bool, withDelete bool) c18DB {
 			switch {
 			case f.Name == "name":
 				d.Vals["name"] = fmt.Sprintf("%s#%d", col, i)
+			case f.Default != "":
+				switch rng.IntN(3) {
+				case 0: // left out: the default applies
+					cls["default-left-out"] = true
+				case 1:
+					d.Vals[f.Name] = nil
+					cls["default-explicit-null"] = true
+				default:
+					v, c := c18GenValue(rng, f.Kind)
+					d.Vals[f.Name] = v
+					addCls(c)
+				}
 			case rng.IntN(4) == 0:
 				cls["null"] = true
 			default:
@@ -387,6 +404,11 @@ func c18Build(ctx context.Context, n *core.Node, db *c18DB) error {
 		for rel, j := range d.FK {
 			if j < i {
 				m[rel+"_id"] = db.Docs[j].ID
+			}
+		}
+		for _, f := range s.Fields[d.Col] {
+			if v, ok := d.Vals[f.Name]; ok && v == nil && f.Default != "" {
+				m[f.Name] = nil // explicit null on a field that has a default
 			}
 		}
 		doc, err := client.NewDocFromMap(m, col.Definition())
@@ -1025,7 +1047,11 @@ func c18Run(ctx context.Context, c core.Case, r *core.Rec) {
 				if e, _, isArr := f.Kind.elem(); isArr {
 					ek = e
 				}
-				r.Violate("import/value-differs/kind="+string(ek)+"/"+c18ValueClass(ek, srow[f.Name]),
+				vcls := c18ValueClass(ek, srow[f.Name])
+				if f.Default != "" && srow[f.Name] == nil {
+					vcls = "null-on-a-field-with-a-default"
+				}
+				r.Violate("import/value-differs/kind="+string(ek)+"/"+vcls,
 					fmt.Sprintf("field %s.%s (%s) of document %s: source %s, target %s", d.Col, f.Name, f.Kind, c18Short(d.Vals["name"]), c18Short(core.Canon(srow[f.Name])), c18Short(core.Canon(trow[f.Name]))),
 					detail(map[string]any{"doc_index": i, "field": f.Name, "source": srow[f.Name], "target": trow[f.Name], "file_doc": fileDocs[d.ID]}))
 			}
@@ -1575,6 +1601,7 @@ func init() {
 		Floors: []string{"imports", "reexports", "exports_with_deleted_document", "format_pretty", "format_compact", "subset_exports", "nontrivial_round_trips", "docs_whose_id_changes", "relations_to_doc_whose_id_changes",
 			"class_int_beyond_2p53", "class_int_extreme", "class_float_huge", "class_float_subnormal_or_min", "class_float_negative_zero", "class_string_long", "class_string_unicode_or_escape",
 			"class_datetime_subsecond", "class_blob", "class_json_deep", "class_array_empty", "class_array_null_element", "class_null",
+			"class_default-left-out", "class_default-explicit-null",
 			"topo_one_many", "topo_one_one", "topo_self", "topo_self_reference_to_itself",
 			"atomicity_bad_document_imports", "atomicity_fault_imports", "fault_on_commit", "fault_on_set", "fault_on_get", "floor_harness_built_every_database"},
 		CaseTimeout: 120 * time.Second,
